@@ -120,7 +120,7 @@ class SrvExec(Exec):
                     super().__init__(batch_size=batch, batch_wait_time=cfg.get('batch_wait', 0.01) if batch > 1 else None, **kw)
                 else:
                     super().__init__(**kw)
-                if cfg.get('init_fail') == [tag, kw['worker_index']]:
+                if cfg.get('init_fail') == [tag, kw['worker_index']] and ex._round < cfg.get('init_fail_rounds', 10 ** 6):
                     raise Boom('init', tag, kw['worker_index'])
 
             def call(self, x):
@@ -143,6 +143,9 @@ class SrvExec(Exec):
 
         if prefail:
             def preprocess(self, x):
+                if isinstance(x, BaseException) or type(x).__name__ == 'RemoteException':
+                    # a user's preprocess works on its input; an upstream error must never get here
+                    raise TypeError(f'preprocess received a non-input: {x!r}')
                 if base(x) in prefail:
                     raise Boom('pre' + tag, base(x))
                 return x
@@ -308,6 +311,9 @@ class SrvExec(Exec):
                 enter_exc = norm_exc(e)
                 self.settle()
                 rounds_info.append(dict(enter_exc=enter_exc, alive=self.live(), gather_alive=None, backlog=None))
+                results.append({})
+                if 'init_fail_rounds' in cfg:
+                    continue      # the fault is transient: the same server object is entered again
                 break
             self.server = server
             gather = server._gather_thread
@@ -393,6 +399,13 @@ class SrvExec(Exec):
                     v = self.check_call(k, x, got, tb, t0, t1)
                     if v:
                         return v
+        if 'init_fail_rounds' in cfg and 'startup' in orc:
+            for rnd, info in enumerate(rounds):
+                failed = info.get('enter_exc') is not None
+                if failed != (rnd < cfg['init_fail_rounds']):
+                    return ('enter-wrong-after-failed-enter', f'round {rnd}: {info}; all rounds: {rounds}')
+            if len(rounds) != cfg.get('rounds', 1):
+                return ('rounds-missing', repr(rounds))
         for info in rounds:
             if info.get('enter_exc') is not None:
                 if 'startup' in orc:
@@ -403,7 +416,7 @@ class SrvExec(Exec):
                     if info['alive']:
                         return ('leak-after-failed-start:' + ','.join(info['alive']), repr(info))
                 continue
-            if 'startup' in orc and cfg.get('init_fail') is not None:
+            if 'startup' in orc and cfg.get('init_fail') is not None and 'init_fail_rounds' not in cfg:
                 return ('enter-did-not-raise', repr(info))
             if 'shutdown' in orc or 'timeouts' in orc:
                 if info['gather_alive'] is False:
